@@ -10,7 +10,8 @@ from rv.hooks import rpc as R
 
 LEVEL = 'exploration'
 SHARDS = {'quick': 4, 'thorough': 16}
-PREPS = ['fill', 'autofill', 'fill,fill', 'fill,autofill', 'autofill,autofill', 'autofill,fill', 'bulk-of-filled', 'bulk-of-filled']
+PREPS = ['fill', 'autofill', 'fill,fill', 'fill,autofill', 'autofill,autofill', 'autofill,fill', 'bulk-of-filled', 'bulk-of-filled',
+         'fill-extend-fill', 'contract-call-after-estimate', 'contract-call-after-estimate']
 POLICIES = ['applied', 'unprocessed', 'unprocessed-pairs', 'alternate', 'unprocessed-nothing-applied']
 INJECT = ['ok', 'fail-reinject', 'fail-redo', 'ok']
 AFTER = ['none', 'bake', 'foreign', 'none']
@@ -42,6 +43,7 @@ def run_history(steps, start_counter, policy='applied'):
     errors = []
     with R.installed(t):
         cx = ExecutionContext(key=key, shell=ShellQuery(RpcNode('http://node.test')))
+        interfaces = {}
         cursor = None     # model of the counter cursor cached on the client context (KNOWN_FINDINGS: it is not re-read between preparations)
         for si, (n, prep, inj, after) in enumerate(steps):
             og = OperationGroup(context=cx)
@@ -55,12 +57,36 @@ def run_history(steps, start_counter, policy='applied'):
                 for p in prep.split(','):
                     info['preps'].append(p)
                     info['pending_at_last_prep'] = node.pending_of_account()
+                    cursor_before = cursor
                     if cursor is None:
                         cursor = node.counter
                     info['cursor_ahead_of_node'] = cursor - node.counter
                     info['predicted_by_cursor'] = [cursor + i + 1 + node.pending_of_account() for i in range(n)]
                     cursor += n
-                    if p == 'bulk-of-filled':
+                    if p == 'contract-call-after-estimate':
+                        # calls made through one ContractInterface: an estimate that is thrown away, then the real call
+                        # (every call is a transaction of its own, built on a context of its own)
+                        from pytezos.client import PyTezosClient
+                        ci = interfaces.setdefault('ci', PyTezosClient(context=cx).contract('KT1BEqzn5Wx8uJrZNvuS9DVHmLvG9td3fDLi'))
+                        cursor = cursor_before          # the client context is not touched by contract calls
+                        ci.default(1).as_transaction().autofill()
+                        out = ci.default(2).as_transaction()
+                        for i in range(1, n):
+                            out = out.operation(tx(i))
+                        out = out.autofill()
+                        info['cursor_ahead_of_node'] = 0
+                        info['predicted_by_cursor'] = [node.counter + i + 1 + node.pending_of_account() for i in range(n)]
+                        info['via_bulk'] = True
+                    elif p == 'fill-extend-fill':
+                        # a group filled, extended with one more content, filled again: the new content continues the numbering
+                        first = OperationGroup(context=cx)
+                        for i in range(max(1, n - 1)):
+                            first = first.operation(tx(i))
+                        part = first.fill()
+                        if n >= 2:
+                            part = part.operation(tx(n - 1)).fill()
+                        out = part
+                    elif p == 'bulk-of-filled':
                         # a group that was already filled (it carries counters) is batched again: the batch gets fresh counters
                         from pytezos.client import PyTezosClient
                         pre = og.fill()
